@@ -36,6 +36,10 @@ ASSUMPTIONS_COMMON = [
 ]
 
 
+import threading
+EXTRACT_LOCK = threading.Lock()
+
+
 def sh(cmd, cwd=None, timeout=None, env=None):
     e = dict(os.environ)
     if env:
@@ -147,9 +151,10 @@ def process_unit(template):
            "errors": [], "functions": [], "undecided": None}
     u = Unit(template, REPO)
     try:
-        u.process()
-        path = u.write(BUILD)
-        cpath = u.write(BUILD, canary=True)
+        with EXTRACT_LOCK:
+            u.process()
+            path = u.write(BUILD)
+            cpath = u.write(BUILD, canary=True)
     except ExtractError as e:
         res["status"] = "undecided"
         res["undecided"] = "extract: %s" % e
